@@ -484,6 +484,12 @@ def eval_digest(ctx, c, rep):
     except (AssertionError, IndexError) as e:
         ctx.fail(f"C15/to_wire/not-rfc-layout/{tname}", f"uncompressed wire form of {tname} does not parse by its RFC layout: {e!r}", rep)
         return
+    if not isinstance(rd, dns.rdata.GenericRdata) and o is None and len(pw) < 4000:
+        gt = f"\\# {len(pw)} {pw.hex()}" if pw else "\\# 0"
+        r2, v2 = outcome(lambda: dns.rdata.from_text(cls, ty, gt), lambda x: type(x).__name__)
+        if v2 is None or type(v2) is not type(rd) or v2.to_digestable() != dg or not (v2 == rd) or (v2 != rd) or hash(v2) != hash(rd):
+            ctx.fail(f"C15/to_digestable/generic-text-route-differs/{tname}", f"{tname} given as `{gt[:60]}`: {r2}; canonical form {v2.to_digestable().hex() if v2 is not None else None} vs {dg.hex()}", rep)
+            return
     if dg != want:
         generic = isinstance(rd, dns.rdata.GenericRdata)
         if len(dg) != len(want):
@@ -565,6 +571,18 @@ def eval_rrsigdata(ctx, c, rep):
     if len(set(canon)) != len(canon):
         ctx.count("rrsigdata.duplicate-rrs-after-derelativisation(not judged)")
         return  # not an RRset in the sense of RFC 2181 §5 (relative and absolute spelling of one name)
+    try:
+        # only records whose names are all absolute: Rdata comparison has its own rule for relative names
+        rootc = [(rd, r_canon_rdata(ty, rd.to_wire())) for rd in members]
+    except dns.exception.DNSException:
+        rootc = []
+    for i, (a, ca) in enumerate(rootc):
+        for b, cb in rootc[i:]:
+            bad = ((a == b) != (ca == cb) or (a != b) != (ca != cb) or (a < b) != (ca < cb) or (a <= b) != (ca <= cb)
+                   or (a > b) != (ca > cb) or (a >= b) != (ca >= cb) or (b == a) != (a == b) or (ca == cb and hash(a) != hash(b)))
+            if bad:
+                ctx.fail("C15/rdata-order/differs-from-canonical-octet-order", f"type {ty}: {a} vs {b}: ==:{a == b} <:{a < b}; canonical octets {ca.hex()} vs {cb.hex()}", rep)
+                return
     want = r_rrsig_data(tuple(s), sf, of, ty, cls, canon)
     if want is None:
         ctx.count("rrsigdata.wild-labels-mismatch(not judged)")
@@ -989,8 +1007,8 @@ def eval_signzone(ctx, c, rep):
 
             def bad(txn, rrset):
                 calls[0] += 1
-                if calls[0] > k:
-                    raise exc("signer failed")
+                if calls[0] == k + 1:
+                    raise exc("signer failed")  # exactly once: a swallowed exception must not go unnoticed
                 txn.add(rrset.name, rrset.ttl, dummy_rrsig(rrset, origin))
             reached = True
             try:
@@ -1034,7 +1052,13 @@ def eval_zonemd(ctx, c, rep):
     try:
         for k in list(dns.zone._digest_hashers):
             dns.zone._digest_hashers[k] = _RecHash(old[k], log)
-        r, v = outcome(lambda: z._compute_digest(alg, scheme), hx)
+        alg_arg, scheme_arg = alg, scheme
+        if c.get("enum") and alg in (1, 2) and scheme == 1:
+            alg_arg, scheme_arg = dns.zone.DigestHashAlgorithm(alg), dns.zone.DigestScheme.SIMPLE
+        if c.get("enum") and scheme == 1 and alg in (1, 2):
+            r, v = outcome(lambda: z._compute_digest(alg_arg), hx)  # scheme defaulted
+        else:
+            r, v = outcome(lambda: z._compute_digest(alg_arg, scheme_arg), hx)
     finally:
         dns.zone._digest_hashers.clear()
         dns.zone._digest_hashers.update(old)
@@ -1286,6 +1310,33 @@ def eval_namedigest(ctx, c, rep):
         ctx.fail("C15/name-to_wire-or-canonicalize/value-differs", f"{n!r}: to_wire(origin) {r2} (expected {exp2}); canonicalize {cl}", rep)
 
 
+
+def eval_timestamp(ctx, c, rep):
+    """dns.dnssec.to_timestamp: datetime / YYYYMMDDHHMMSS / decimal seconds / float / int all name the same instant"""
+    import calendar
+    import datetime
+    t = c["t"]
+    tm = __import__("time").gmtime(t)
+    forms = {"int": t, "float": t + c.get("frac", 0.0), "epoch-text": str(t),
+             "sigtime": "%04d%02d%02d%02d%02d%02d" % tm[:6],
+             "datetime": datetime.datetime.fromtimestamp(t, datetime.timezone.utc)}
+    for k, v in forms.items():
+        if k == "sigtime" and not (0 <= tm[0] <= 9999):
+            continue
+        if k == "epoch-text" and len(str(t)) > 10:
+            continue  # the presentation format admits at most 10 decimal digits (RFC 4034 §3.2)
+        r, got = outcome(lambda: dns.dnssec.to_timestamp(v), str)
+        ctx.count("timestamp." + k)
+        if got != t:
+            ctx.fail("C15/to_timestamp/" + k, f"to_timestamp({v!r}) -> {r}, expected {t} (calendar.timegm check {calendar.timegm(tm)})", rep)
+            return
+    for bad in c.get("bad", []):
+        r, got = outcome(lambda: dns.dnssec.to_timestamp(bad), str)
+        if got is not None or r.startswith("FOREIGN"):
+            ctx.fail("C15/to_timestamp/malformed-accepted-or-foreign", f"to_timestamp({bad!r}) -> {r}", rep)
+            return
+
+
 def eval_dsargs_guarded(ctx, c, rep):
     try:
         eval_dsargs(ctx, c, rep)
@@ -1293,7 +1344,7 @@ def eval_dsargs_guarded(ctx, c, rep):
         ctx.fail("C15/ds-helpers/raises:" + type(e).__name__, f"a DS/CDS/CDNSKEY helper raised on valid input: {e!r}", rep)
 
 
-EVAL = {"digest": eval_digest, "dsargs": eval_dsargs_guarded, "namedigest": eval_namedigest, "keyid": eval_keyid, "rrsigdata": eval_rrsigdata, "ds": eval_ds, "nsec3": eval_nsec3,
+EVAL = {"timestamp": eval_timestamp, "digest": eval_digest, "dsargs": eval_dsargs_guarded, "namedigest": eval_namedigest, "keyid": eval_keyid, "rrsigdata": eval_rrsigdata, "ds": eval_ds, "nsec3": eval_nsec3,
         "bitmap": eval_bitmap, "signzone": eval_signzone, "zonemd": eval_zonemd}
 
 
@@ -1532,6 +1583,7 @@ def z_rds(rng, ty, ttl, rel_ok=False):
 
 
 SOA_TPL = "{n} {n} 1 7200 900 1209600 %d"
+SOA_TPL_SERIAL = "{n} {n} %d 7200 900 1209600 %d"
 
 
 def gen_zone(rng, for_zonemd=False):
@@ -1634,6 +1686,17 @@ def gen_zonemd(rng):
     z["alg"] = rng.choice([1, 1, 1, 2, 2, 2, 3, 0])
     z["scheme"] = rng.choice([1] * 9 + [0, 2])
     z["vroute"] = rng.choice(["good", "unsup+good", "wrong+good", "wrong", "unsup", "none"])
+    z["enum"] = rng.chance(1, 3)
+    for nd in z["nodes"]:
+        for rs in nd["rds"]:
+            if rs["ty"] == 6 and rng.chance(1, 2):
+                # serial 0, 2^31, 2^32-1; the SOA is hashed and its serial copied into the ZONEMD record
+                rs["rd"][0]["text"] = SOA_TPL_SERIAL % (rng.choice([0, 2**31 - 1, 2**31, 2**32 - 1]), rng.choice([0, 2**32 - 1]))
+            if rng.chance(1, 10):
+                rs["ttl"] = rng.choice([0, 2**31 - 1, 2**31, 2**32 - 1])
+    if rng.chance(1, 25):
+        # RDATA of the largest possible size: RDLENGTH 65535 in the hashed RR
+        z["nodes"][-1]["rds"].append({"ty": 65281, "ttl": 300, "rd": [{"ty": 65281, "wire": (bytes([rng.below(256)]) * 65535).hex()}]})
     origin = lab(z["origin"])
     apexname = hexl([] if z["rel"] else origin)
     zm = lambda ttl, serial: {"ty": 63, "ttl": ttl, "rd": [{"ty": 63, "text": f"{serial} 1 1 " + X.H48, "names": []}]}
@@ -1676,6 +1739,11 @@ def gen_dsargs(rng):
             "enum": rng.chance(1, 3), "algs_as": rng.choice(["set", "list", "tuple", "gen"])}
 
 
+def gen_timestamp(rng):
+    t = rng.choice([0, 1, 59, 60, 86399, 86400, 951782400, 951868800, 2**31 - 1, 2**31, 2**32 - 1, 2**32, 4102444800, 253402300799, rng.below(2**32)])
+    return {"kind": "timestamp", "t": t, "frac": rng.choice([0.0, 0.25, 0.5, 0.75]),
+            "bad": rng.shuffle(["", " ", "2030010100000", "203001010000000", "20300101000000\n", "1893456000\n", "-1", "1e9", "20301301000000", "abc"])[:3]}
+
 def gen_namedigest(rng):
     name = gen_name(rng, absolute=rng.chance(1, 2), maxlabels=4, budget=100)
     origin = rng.choice(ORIGINS + [[b"Rel", b"O"], []]) if rng.chance(3, 4) else None
@@ -1689,7 +1757,7 @@ def case_key(c):
 def generate(ctx: Ctx, scale: float, rng):
     specs = all_specs()
     plan = [("digest", 2600, lambda: gen_digest(rng, specs)), ("keyid", 1200, lambda: gen_keyid(rng)),
-            ("rrsigdata", 1200, lambda: gen_rrsigdata(rng)), ("ds", 500, lambda: gen_ds(rng)), ("dsargs", 500, lambda: gen_dsargs(rng)), ("namedigest", 400, lambda: gen_namedigest(rng)),
+            ("rrsigdata", 1200, lambda: gen_rrsigdata(rng)), ("ds", 500, lambda: gen_ds(rng)), ("dsargs", 500, lambda: gen_dsargs(rng)), ("namedigest", 400, lambda: gen_namedigest(rng)), ("timestamp", 120, lambda: gen_timestamp(rng)),
             ("nsec3", 700, lambda: gen_nsec3(rng)), ("bitmap", 900, lambda: gen_bitmap(rng)),
             ("signzone", 500, lambda: gen_signzone(rng)), ("zonemd", 300, lambda: gen_zonemd(rng))]
     # every implemented pair at least twice with mixed-case absolute names (exhaustive over the table)
